@@ -11,6 +11,30 @@ import z3
 from .build import ev, VALIDATE_BAD
 
 
+class FakeHW:
+    """Stand-in used when a design does not elaborate: every condition signal is an independent z3 variable."""
+
+    def __init__(self):
+        self.vars = {}
+
+    def _v(self, sig):
+        k = id(sig)
+        if k not in self.vars:
+            self.vars[k] = z3.BitVec(f"fake_{sig.name}_{len(self.vars)}", len(sig))
+        return self.vars[k]
+
+    def sig(self, sig):
+        return self._v(sig)
+
+    def b(self, sig):
+        return self._v(sig) == 1
+
+
+class Unbuilt:
+    def __init__(self, d, spec):
+        self.d, self.spec, self.hw = d, spec, FakeHW()
+
+
 class Oracle:
     def __init__(self, built):
         self.b = built
@@ -118,6 +142,13 @@ class Oracle:
     def _sat(self, *fs):
         s = z3.Solver()
         s.add(*fs)
+        if isinstance(self.hw, FakeHW):
+            # probes of one FSM are mutually exclusive (with a real netlist they are functions of the state register)
+            for group in self.d.fsm_probes:
+                bs = [self.hw.b(p) for p in group]
+                for i in range(len(bs)):
+                    for j in range(i + 1, len(bs)):
+                        s.add(z3.Not(z3.And(bs[i], bs[j])))
         return s.check() == z3.sat
 
     def double_activation(self, act, cons, within=None):
@@ -130,31 +161,36 @@ class Oracle:
                 alts.append(z3.And(act[s1.sid], act[s2.sid]))
         return z3.Or(*alts) if alts else z3.BoolVal(False)
 
+    def call_paths(self, root):
+        """all call paths (tuples of sites) from body `root`; finite when there is no recursion"""
+        out = []
+
+        def rec(name, path, seen):
+            for s in self.bodies[name].sites:
+                if s.target in seen:
+                    continue
+                p = path + (s,)
+                out.append(p)
+                rec(s.target, p, seen | {s.target})
+
+        rec(root, (), {root})
+        return out
+
     def root_double_call(self, root):
-        """Can body `root`, running alone, double-activate an exclusive method? (ill-formed)"""
-        if self.bodies[root].kind == "T":
-            others = [t for t in self.transactions if t not in self.parents_closure([root])]
-            run, act, cons, _ = self.hyp({root} | (self.parents_closure([root]) & set(self.transactions)), others)
-            return self._sat(*cons, self.double_activation(act, cons))
-        # a method as root: pretend it runs, nothing else does
+        """Does the call tree of `root` reach an exclusive method through two distinct call paths that can be
+        active together (not in different alternatives of one control structure)?"""
         hw = self.hw
-        memo = {}
-
-        def brun(name, stack=()):
-            if name == root:
-                return z3.BoolVal(True)
-            if self.bodies[name].kind == "T":
-                return z3.BoolVal(False)
-            if name in memo:
-                return memo[name]
-            if name in stack:
-                return z3.BoolVal(False)
-            terms = [z3.And(brun(s.caller.name, stack + (name,)), ev(s.cond, hw)) for s in self.sites_by_target.get(name, [])]
-            memo[name] = z3.Or(*terms) if terms else z3.BoolVal(False)
-            return memo[name]
-
-        act = {s.sid: z3.And(brun(s.caller.name), ev(s.cond, hw)) for s in self.d.sites}
-        return self._sat(self.double_activation(act, []))
+        by_target = {}
+        for p in self.call_paths(root):
+            by_target.setdefault(p[-1].target, []).append(p)
+        for target, paths in by_target.items():
+            if not self.exclusive(target):
+                continue
+            for p1, p2 in itertools.combinations(paths, 2):
+                f = z3.And(*[ev(s.cond, hw) for s in p1 + p2])
+                if self._sat(f):
+                    return True
+        return False
 
     def method_conflict(self, t1, t2):
         """SpecConf through shared exclusive methods: t1 and t2 running (nobody else) can double-activate."""
